@@ -1,15 +1,19 @@
 /-
-  The part of M05's machinery that does not need `SegsNewest.empty_open` ("only writable segments are
-  empty"), restated for the three-field order invariant `SegsOrd`. `empty_open` is needed for the
-  clean reopen only; it is FALSE in the intermediate states of a compaction of an empty segment
-  (sealed and empty), while Put/Delete and the copy loop only need: sequence ids distinct and bounded
-  by `maxSeq`, every writable segment is the newest. (Proofs: M05's, minus the `empty_open` branches.)
+  M05's write-path machinery restated for the three-field order invariant `SegsOrd` (sequence ids
+  distinct and bounded by `maxSeq`, every writable segment is the newest), used by the interleaved
+  model (M06/M08).
+  HISTORY: `SegsNewest` used to have a fourth clause `empty_open` ("only writable segments are empty"),
+  needed for the OLD clean reopen only, kept by Put/Delete only under the model precondition `RecFits`,
+  and FALSE in the intermediate states of a compaction of an empty segment; `SegsOrd` was `SegsNewest`
+  without it. Since fix F13 (`reopenClean` keeps `Full` on empty segments) `empty_open` and `RecFits` are
+  gone, and `SegsOrd` and `SegsNewest` are the same invariant (`SegsOrd.newest`, `SegsNewest.ord`,
+  `curOrd_iff_curNewest`, `wf3x_iff_wf3`). The `…O`/`…o`/`…x` names are kept for the clients.
 -/
 import Pogreb.Props.M05
 namespace Pogreb
 open MState
 
-/-- `SegsNewest` without `empty_open`. -/
+/-- The same three clauses as `SegsNewest` (historically: `SegsNewest` without `empty_open`). -/
 structure SegsOrd (segs : List MSeg) (maxSeq : Nat) : Prop where
   seqs        : (segs.map (·.seq)).Nodup
   le_max      : ∀ s ∈ segs, s.seq ≤ maxSeq
@@ -21,10 +25,16 @@ def MState.CurOrd (st : MState) : Prop := SegsOrd st.segs st.maxSeq
 theorem SegsNewest.ord {segs : List MSeg} {m : Nat} (h : SegsNewest segs m) : SegsOrd segs m :=
   ⟨h.seqs, h.le_max, h.open_newest⟩
 
+theorem SegsOrd.newest {segs : List MSeg} {m : Nat} (h : SegsOrd segs m) : SegsNewest segs m :=
+  ⟨h.seqs, h.le_max, h.open_newest⟩
+
+theorem MState.curOrd_iff_curNewest (st : MState) : st.CurOrd ↔ st.CurNewest :=
+  ⟨SegsOrd.newest, SegsNewest.ord⟩
+
 namespace MState
 
 /-- `WF3c` with `CurOrd` for `CurNewest`. -/
-def WF3o (st : MState) : Prop := st.WF2 ∧ st.LogCoupled ∧ st.CurOrd ∧ st.RecFits
+def WF3o (st : MState) : Prop := st.WF2 ∧ st.LogCoupled ∧ st.CurOrd
 
 theorem SegsOrd.map {segs : List MSeg} {m : Nat} (h : SegsOrd segs m) (g : MSeg → MSeg)
     (hseq : ∀ x ∈ segs, (g x).seq = x.seq)
@@ -87,7 +97,7 @@ theorem swap_ord {st : MState} (h : st.CurOrd) :
     intro x hx; have := h.le_max x hx; show x.seq < st.maxSeq + 1; omega
 
 theorem wrPre_ord {st : MState} (hids : (st.segs.map (·.id)).Nodup) (hN : st.CurOrd)
-    (_hfit : st.RecFits) (hc : st.SegsClean) (data : Bytes) (_hlen : data.length ≤ 10 + 2 ^ 16 + 2 ^ 31) :
+    (hc : st.SegsClean) (data : Bytes) :
     (st.wrPre data).CurOrd ∧ slog (st.wrPre data).segs = slog st.segs ∧ (st.wrPre data).SegsClean ∧
     (st.wrPre data).cfg = st.cfg ∧
     ∃ s, (st.wrPre data).cur.bind (st.wrPre data).seg? = some s ∧ s ∈ (st.wrPre data).segs ∧
@@ -143,13 +153,11 @@ theorem wrPre_ord {st : MState} (hids : (st.segs.map (·.id)).Nodup) (hN : st.Cu
       · rw [hx] at hn; simp at hn
 
 theorem writeRecord_ord {st : MState} (hids : (st.segs.map (·.id)).Nodup) (hN : st.CurOrd)
-    (hfit : st.RecFits) (hc : st.SegsClean) (r : Rec) (hf : r.Fits) :
+    (hc : st.SegsClean) (r : Rec) (hf : r.Fits) :
     (st.writeRecord r.encode).1.CurOrd ∧
     slog (st.writeRecord r.encode).1.segs = slog st.segs ++ [r.toEnt] ∧
     (st.writeRecord r.encode).1.cfg = st.cfg := by
-  have hlen : r.encode.length ≤ 10 + 2 ^ 16 + 2 ^ 31 := by
-    rw [Rec.encode_length]; obtain ⟨h1, h2⟩ := hf; omega
-  obtain ⟨hN0, hlog0, hc0, hcfg0, s, htgt, hsm, hsf⟩ := wrPre_ord hids hN hfit hc r.encode hlen
+  obtain ⟨hN0, hlog0, hc0, hcfg0, s, htgt, hsm, hsf⟩ := wrPre_ord hids hN hc r.encode
   have hids0 := (wrPre_spec st r.encode hids).1
   rw [writeRecord_eq, htgt]
   dsimp only
@@ -171,14 +179,12 @@ theorem writeRecord_ord {st : MState} (hids : (st.segs.map (·.id)).Nodup) (hN :
       rw [scan_append_rec (hc0 s hsm) hf, List.map_append]; rfl)
 
 theorem writeRecord_extO {st : MState} (hids : (st.segs.map (·.id)).Nodup) (hN : st.CurOrd)
-    (hfit : st.RecFits) (hc : st.SegsClean) (r : Rec) (hf : r.Fits) :
+    (hc : st.SegsClean) (r : Rec) (hf : r.Fits) :
     Ext [r.toEnt] st.segs (st.writeRecord r.encode).1.segs ∧
     Cover st.segs (st.writeRecord r.encode).1.segs ∧
     ∃ w ∈ (st.writeRecord r.encode).1.segs, w.id = (st.writeRecord r.encode).2.1 ∧
       ∀ y ∈ (st.writeRecord r.encode).1.segs, y.seq ≤ w.seq := by
-  have hlen : r.encode.length ≤ 10 + 2 ^ 16 + 2 ^ 31 := by
-    rw [Rec.encode_length]; obtain ⟨h1, h2⟩ := hf; omega
-  obtain ⟨hN0, _, hc0, _, s, htgt, hsm, hsf⟩ := wrPre_ord hids hN hfit hc r.encode hlen
+  obtain ⟨hN0, _, hc0, _, s, htgt, hsm, hsf⟩ := wrPre_ord hids hN hc r.encode
   obtain ⟨hx0, hcov0⟩ := wrPre_ext hids r.encode
   have hids0 := (wrPre_spec st r.encode hids).1
   rw [writeRecord_eq, htgt]
@@ -222,62 +228,52 @@ theorem writeRecord_extO {st : MState} (hids : (st.segs.map (·.id)).Nodup) (hN 
 
 theorem put_wf3o {st : MState} (h : st.WF3o) (k v : Bytes)
     (hk : k.length ≤ maxKeyLength) (hv : v.length ≤ maxValueLength) : (st.put k v).1.WF3o := by
-  obtain ⟨h2, hlc, hN, hfit⟩ := h
+  obtain ⟨h2, hlc, hN⟩ := h
   obtain ⟨_, _, habs⟩ := M01_put_refines st h2.1 k v hk hv
   have hk' : ¬ k.length > maxKeyLength := by omega
   have hv' : ¬ v.length > maxValueLength := by omega
   have hf : (⟨false, k, v⟩ : Rec).Fits := by
     unfold maxKeyLength at hk; unfold maxValueLength at hv
     constructor <;> dsimp only <;> omega
-  obtain ⟨hN1, hlog1, hcfg1⟩ := writeRecord_ord h2.1.ids hN hfit h2.2.2 ⟨false, k, v⟩ hf
+  obtain ⟨hN1, hlog1, _⟩ := writeRecord_ord h2.1.ids hN h2.2.2 ⟨false, k, v⟩ hf
   have hsegs : (st.put k v).1.segs = (st.writeRecord (Rec.encode ⟨false, k, v⟩)).1.segs := by
     unfold MState.put; rw [if_neg hk', if_neg hv']
   have hmax : (st.put k v).1.maxSeq = (st.writeRecord (Rec.encode ⟨false, k, v⟩)).1.maxSeq := by
     unfold MState.put; rw [if_neg hk', if_neg hv']
-  have hcfg : (st.put k v).1.cfg = (st.writeRecord (Rec.encode ⟨false, k, v⟩)).1.cfg := by
-    unfold MState.put; rw [if_neg hk', if_neg hv']
-  refine ⟨M04_put st h2 k v hk hv, ?_, ?_, ?_⟩
+  refine ⟨M04_put st h2 k v hk hv, ?_, ?_⟩
   · rw [logCoupled_iff, hsegs, hlog1, habs, ← (logCoupled_iff st).1 hlc]
     exact contents_put _ k v
   · show SegsOrd _ _
     rw [hsegs, hmax]; exact hN1
-  · show _ ≤ _
-    rw [hcfg, hcfg1]; exact hfit
 
 theorem delete_wf3o {st : MState} (h : st.WF3o) (k : Bytes) (hk : k.length ≤ maxKeyLength) :
     (st.delete k).WF3o := by
-  obtain ⟨h2, hlc, hN, hfit⟩ := h
+  obtain ⟨h2, hlc, hN⟩ := h
   have habs := (M01_delete_refines st h2.1 k).2
   have hwf2 := M04_delete st h2 k hk
   have hf : (⟨true, k, []⟩ : Rec).Fits := by
     unfold maxKeyLength at hk
     constructor <;> dsimp only [List.length_nil] <;> omega
-  obtain ⟨hN1, hlog1, hcfg1⟩ := writeRecord_ord h2.1.ids hN hfit h2.2.2 ⟨true, k, []⟩ hf
+  obtain ⟨hN1, hlog1, _⟩ := writeRecord_ord h2.1.ids hN h2.2.2 ⟨true, k, []⟩ hf
   rw [MState.delete_eq] at habs hwf2 ⊢
   cases hg : st.idx.get (st.hashOf k) (st.matchKey k) with
-  | none => exact ⟨h2, hlc, hN, hfit⟩
+  | none => exact ⟨h2, hlc, hN⟩
   | some sl =>
     rw [hg] at habs hwf2
     dsimp only at habs hwf2 ⊢
-    refine ⟨hwf2, ?_, hN1, ?_⟩
-    · rw [logCoupled_iff, habs]
-      show contents (slog (st.writeRecord (Rec.encode ⟨true, k, []⟩)).1.segs) = _
-      rw [hlog1, ← (logCoupled_iff st).1 hlc]
-      exact contents_del _ k
-    · show _ ≤ _
-      rw [show ({ (st.writeRecord (Rec.encode ⟨true, k, []⟩)).1 with
-          idx := (st.writeRecord (Rec.encode ⟨true, k, []⟩)).1.idx.delete (st.hashOf k)
-            ((st.writeRecord (Rec.encode ⟨true, k, []⟩)).1.matchKey k) } : MState).cfg =
-          (st.writeRecord (Rec.encode ⟨true, k, []⟩)).1.cfg from rfl, hcfg1]
-      exact hfit
+    refine ⟨hwf2, ?_, hN1⟩
+    rw [logCoupled_iff, habs]
+    show contents (slog (st.writeRecord (Rec.encode ⟨true, k, []⟩)).1.segs) = _
+    rw [hlog1, ← (logCoupled_iff st).1 hlc]
+    exact contents_del _ k
 
-theorem write_segLastO {st : MState} (h2 : st.WF2) (hN : st.CurOrd) (hfit : st.RecFits)
+theorem write_segLastO {st : MState} (h2 : st.WF2) (hN : st.CurOrd)
     (hSL : st.SegLast) (r : Rec) (hf : r.Fits) (idx' : Index)
     (hslots : ∀ sl ∈ idx'.slots, sl.seg = (st.writeRecord r.encode).2.1 ∨
       (sl ∈ st.idx.slots ∧ st.kof sl ≠ r.key)) :
     ({ (st.writeRecord r.encode).1 with idx := idx' } : MState).SegLast := by
   obtain ⟨hwf1, _, _, hreads, _⟩ := writeRecord_wf h2.1 r.encode
-  obtain ⟨hext, _, w, hw, hwid, hwmax⟩ := writeRecord_extO h2.1.ids hN hfit h2.2.2 r hf
+  obtain ⟨hext, _, w, hw, hwid, hwmax⟩ := writeRecord_extO h2.1.ids hN h2.2.2 r hf
   intro sl hsl
   show NoNewer (st.writeRecord r.encode).1.segs sl.seg ((st.writeRecord r.encode).1.kof sl)
   rcases hslots sl hsl with hseg | ⟨hold, hne⟩
@@ -295,7 +291,7 @@ theorem write_segLastO {st : MState} (h2 : st.WF2) (hN : st.CurOrd) (hfit : st.R
     rw [List.mem_singleton.1 he]
     exact fun e' => hne e'.symm
 
-theorem put_segLastO {st : MState} (h2 : st.WF2) (hN : st.CurOrd) (hfit : st.RecFits)
+theorem put_segLastO {st : MState} (h2 : st.WF2) (hN : st.CurOrd)
     (hSL : st.SegLast) (k v : Bytes) (hk : k.length ≤ maxKeyLength) (hv : v.length ≤ maxValueLength) :
     (st.put k v).1.SegLast := by
   have hk' : ¬ k.length > maxKeyLength := by omega
@@ -328,7 +324,7 @@ theorem put_segLastO {st : MState} (h2 : st.WF2) (hN : st.CurOrd) (hfit : st.Rec
       (st.writeRecord (Rec.encode ⟨false, k, v⟩)).2.2⟩ : Slot).hash =
       (st.writeRecord (Rec.encode ⟨false, k, v⟩)).1.hashOf k := by
     unfold hashOf; rw [hseed]
-  apply write_segLastO h2 hN hfit hSL ⟨false, k, v⟩ hf
+  apply write_segLastO h2 hN hSL ⟨false, k, v⟩ hf
   intro sl hsl
   rcases put_idx_slots' hwf1 k _ hkey hh sl hsl with e | ⟨hold, hne⟩
   · left; rw [e]
@@ -339,7 +335,7 @@ theorem put_segLastO {st : MState} (h2 : st.WF2) (hN : st.CurOrd) (hfit : st.Rec
       unfold kof; rw [(hreads sl hold).1]
     rw [← hkf]; exact hne
 
-theorem delete_segLastO {st : MState} (h2 : st.WF2) (hN : st.CurOrd) (hfit : st.RecFits)
+theorem delete_segLastO {st : MState} (h2 : st.WF2) (hN : st.CurOrd)
     (hSL : st.SegLast) (k : Bytes) (hk : k.length ≤ maxKeyLength) : (st.delete k).SegLast := by
   have hf : (⟨true, k, []⟩ : Rec).Fits := by
     unfold maxKeyLength at hk
@@ -353,7 +349,7 @@ theorem delete_segLastO {st : MState} (h2 : st.WF2) (hN : st.CurOrd) (hfit : st.
     have hh : st.hashOf k = (st.writeRecord (Rec.encode ⟨true, k, []⟩)).1.hashOf k := by
       unfold hashOf; rw [hseed]
     rw [hh]
-    apply write_segLastO h2 hN hfit hSL ⟨true, k, []⟩ hf
+    apply write_segLastO h2 hN hSL ⟨true, k, []⟩ hf
     intro sl hsl
     obtain ⟨hold, hne⟩ := delete_idx_slots' hwf1 k sl hsl
     right
@@ -363,7 +359,7 @@ theorem delete_segLastO {st : MState} (h2 : st.WF2) (hN : st.CurOrd) (hfit : st.
       unfold kof; rw [(hreads sl hold).1]
     rw [← hkf]; exact hne
 
-theorem compactRecord_segLastO {st : MState} (h2 : st.WF2) (hN : st.CurOrd) (hfit : st.RecFits)
+theorem compactRecord_segLastO {st : MState} (h2 : st.WF2) (hN : st.CurOrd)
     (hSL : st.SegLast) (c : CompState)
     (hreal : ∀ src, c.source = some src → ∀ s ∈ st.segs, s.id = src →
       ∃ done, recsWithOffsets s.data = done ++ c.todo) : (st.compactRecord c).1.SegLast := by
@@ -399,7 +395,7 @@ theorem compactRecord_segLastO {st : MState} (h2 : st.WF2) (hN : st.CurOrd) (hfi
         obtain ⟨hk0, _, _, _⟩ := slot_at_record h2 hs0 (r := r)
           (fun s hs' hid => by rw [ho]; exact hrec s hs' (hid.trans hsg))
         have hkof0 : st.kof s0 = r.key := by unfold kof; rw [hk0]; rfl
-        apply write_segLastO h2 hN hfit hSL r hfits
+        apply write_segLastO h2 hN hSL r hfits
         intro sl hsl
         rcases hsub sl hsl with ⟨hold, hne⟩ | e'
         · right
@@ -411,13 +407,13 @@ theorem compactRecord_segLastO {st : MState} (h2 : st.WF2) (hN : st.CurOrd) (hfi
 theorem compactRecord_wf3o {st : MState} (h : st.WF3o) (c : CompState)
     (hreal : ∀ src, c.source = some src → ∀ s ∈ st.segs, s.id = src →
       ∃ done, recsWithOffsets s.data = done ++ c.todo) : (st.compactRecord c).1.WF3o := by
-  obtain ⟨h2, hlc, hN, hfit⟩ := h
+  obtain ⟨h2, hlc, hN⟩ := h
   obtain ⟨hwf2', habs'⟩ := M04_compactRecord st h2 c hreal
   cases hs : c.source with
-  | none => rw [compactRecord_none st c hs]; exact ⟨h2, hlc, hN, hfit⟩
+  | none => rw [compactRecord_none st c hs]; exact ⟨h2, hlc, hN⟩
   | some src =>
     cases ht : c.todo with
-    | nil => rw [compactRecord_nil st c src hs ht]; exact ⟨h2, hlc, hN, hfit⟩
+    | nil => rw [compactRecord_nil st c src hs ht]; exact ⟨h2, hlc, hN⟩
     | cons p rest =>
       obtain ⟨off, r⟩ := p
       have hrec : ∀ s ∈ st.segs, s.id = src →
@@ -428,46 +424,48 @@ theorem compactRecord_wf3o {st : MState} (h : st.WF3o) (c : CompState)
         exact ⟨done, rest, hd⟩
       have hwrite : ∀ i0, st.idx.repoint (st.hashOf r.key) src off src off = some i0 →
           ∀ st' : MState, st'.segs = (st.writeRecord r.encode).1.segs →
-            st'.maxSeq = (st.writeRecord r.encode).1.maxSeq → st'.cfg = (st.writeRecord r.encode).1.cfg →
+            st'.maxSeq = (st.writeRecord r.encode).1.maxSeq →
             st'.WF2 → st'.abs = st.abs → st'.WF3o := by
-        intro i0 h0 st' e1 e2 e3 hw ha
+        intro i0 h0 st' e1 e2 hw ha
         obtain ⟨hlive, hfits, hdel⟩ := live_abs h2 h0 hrec
-        obtain ⟨hN1, hlog1, hcfg1⟩ := writeRecord_ord h2.1.ids hN hfit h2.2.2 r hfits
-        refine ⟨hw, ?_, ?_, ?_⟩
+        obtain ⟨hN1, hlog1, _⟩ := writeRecord_ord h2.1.ids hN h2.2.2 r hfits
+        refine ⟨hw, ?_, ?_⟩
         · rw [logCoupled_iff, e1, hlog1, ha]
           have : r.toEnt = ⟨r.key, some r.val⟩ := by simp [Rec.toEnt, hdel]
           rw [this, contents_copy _ _ _ (by rw [(logCoupled_iff st).1 hlc]; exact hlive)]
           exact (logCoupled_iff st).1 hlc
         · show SegsOrd _ _
           rw [e1, e2]; exact hN1
-        · show _ ≤ _
-          rw [e3, hcfg1]; exact hfit
       rcases compactRecord_step' st c src off r rest hs ht with
         ⟨_, e⟩ | ⟨_, _, e⟩ | ⟨_, ⟨i0, h0⟩, _, e⟩ | ⟨_, ⟨i0, h0⟩, idx', _, e⟩
-      · rw [e]; exact ⟨h2, hlc, hN, hfit⟩
-      · rw [e]; exact ⟨h2, hlc, hN, hfit⟩
+      · rw [e]; exact ⟨h2, hlc, hN⟩
+      · rw [e]; exact ⟨h2, hlc, hN⟩
       · rw [e] at hwf2' habs' ⊢
-        exact hwrite i0 h0 _ rfl rfl rfl hwf2' habs'
+        exact hwrite i0 h0 _ rfl rfl hwf2' habs'
       · rw [e] at hwf2' habs' ⊢
-        exact hwrite i0 h0 _ rfl rfl rfl hwf2' habs'
+        exact hwrite i0 h0 _ rfl rfl hwf2' habs'
 
-/-- `WF3` with `CurOrd` for `CurNewest`: what every step of an interleaved compaction keeps. -/
-def WF3x (st : MState) : Prop := st.WF2 ∧ st.LogCoupled ∧ st.CurOrd ∧ st.RecFits ∧ st.SegLast
+/-- `WF3` with `CurOrd` for `CurNewest`: what every step of an interleaved compaction keeps.
+(Since fix F13 equivalent to `WF3`: `wf3x_iff_wf3`.) -/
+def WF3x (st : MState) : Prop := st.WF2 ∧ st.LogCoupled ∧ st.CurOrd ∧ st.SegLast
 
-theorem WF3.x {st : MState} (h : st.WF3) : st.WF3x := ⟨h.1, h.2.1, h.2.2.1.ord, h.2.2.2.1, h.2.2.2.2⟩
-theorem WF3x.core {st : MState} (h : st.WF3x) : st.WF3o := ⟨h.1, h.2.1, h.2.2.1, h.2.2.2.1⟩
+theorem WF3.x {st : MState} (h : st.WF3) : st.WF3x := ⟨h.1, h.2.1, h.2.2.1.ord, h.2.2.2⟩
+theorem WF3x.core {st : MState} (h : st.WF3x) : st.WF3o := ⟨h.1, h.2.1, h.2.2.1⟩
 theorem wf3x_intro {st : MState} (h : st.WF3o) (hSL : st.SegLast) : st.WF3x :=
-  ⟨h.1, h.2.1, h.2.2.1, h.2.2.2, hSL⟩
+  ⟨h.1, h.2.1, h.2.2, hSL⟩
 theorem WF3x.wf3 {st : MState} (h : st.WF3x) (hN : st.CurNewest) : st.WF3 :=
-  ⟨h.1, h.2.1, hN, h.2.2.2.1, h.2.2.2.2⟩
+  ⟨h.1, h.2.1, hN, h.2.2.2⟩
+/-- `WF3x` is `WF3` (no extra `CurNewest` hypothesis needed any more). -/
+theorem WF3x.wf3' {st : MState} (h : st.WF3x) : st.WF3 := h.wf3 h.2.2.1.newest
+theorem wf3x_iff_wf3 (st : MState) : st.WF3x ↔ st.WF3 := ⟨WF3x.wf3', WF3.x⟩
 
 theorem put_wf3x {st : MState} (h : st.WF3x) (k v : Bytes)
     (hk : k.length ≤ maxKeyLength) (hv : v.length ≤ maxValueLength) : (st.put k v).1.WF3x :=
-  wf3x_intro (put_wf3o h.core k v hk hv) (put_segLastO h.1 h.2.2.1 h.2.2.2.1 h.2.2.2.2 k v hk hv)
+  wf3x_intro (put_wf3o h.core k v hk hv) (put_segLastO h.1 h.2.2.1 h.2.2.2 k v hk hv)
 
 theorem delete_wf3x {st : MState} (h : st.WF3x) (k : Bytes) (hk : k.length ≤ maxKeyLength) :
     (st.delete k).WF3x :=
-  wf3x_intro (delete_wf3o h.core k hk) (delete_segLastO h.1 h.2.2.1 h.2.2.2.1 h.2.2.2.2 k hk)
+  wf3x_intro (delete_wf3o h.core k hk) (delete_segLastO h.1 h.2.2.1 h.2.2.2 k hk)
 
 end MState
 end Pogreb
